@@ -17,7 +17,8 @@ RULE = ('Exhaustive: every input of n <= 6 bytes (thorough: n = 7 for three stre
         'sequences; real files of 64 KiB +- 4 bytes and 200 KiB with a multi-byte character / CRLF / quoted field straddling offset 65536 read through '
         'fs.createReadStream and in bulk mode. Oracle: (records, header, warnings as a set, error) of every partition == single-chunk delivery == '
         'reference reader on the decoded text == bulk reading; valid UTF-8 is never rejected, invalid UTF-8 is rejected for every partition. '
-        'Non-trivial = a cut inside a CRLF pair or inside a multi-byte character; enumerated deliveries are distinct by construction.')
+        'Non-trivial = a cut inside a CRLF pair or inside a multi-byte character; enumerated deliveries are distinct by construction.'
+        ' Later additions: 140000 one-character rows, a 15000-line record, pieces of mixed sizes, 1 MiB chunks, files over 16 MiB with a character straddling 2^24, two readers alive at once.')
 ASSUMPTIONS = ['node Readable.from([Buffer...], {objectMode:false}) delivers the prescribed chunks unchanged', 'warning order is not compared (not claimed)']
 
 ALPHABET = ['a', '"', ',', '\n', '\r', '#']
